@@ -109,6 +109,16 @@ Theorem c04_recovers_chain :
 Proof. exact mix_recovers_gen. Qed.
 Print Assumptions c04_recovers_chain.
 
+(* ... read column by column: frame i of the recovered chain has lookup address ra_i - adj (its module is the module
+   lookup of that address, C08), return address ra_i and the technique label generated for call i; one frame per call *)
+Theorem c04_chain_columns : forall a v gp base off fs,
+  map f_instr (mix_chain a v gp base off fs) = map (fun f => ms_ra f - a_adj a) fs /\
+  map f_resume (mix_chain a v gp base off fs) = map ms_ra fs /\
+  map f_trust (mix_chain a v gp base off fs) = map (fun f => mix_trust (ms_tech f)) fs /\
+  length (mix_chain a v gp base off fs) = length fs.
+Proof. exact mix_chain_columns. Qed.
+Print Assumptions c04_chain_columns.
+
 Theorem c04_mix_archs :
   (forall os, mix_arch x86 os) /\ (forall os, mix_arch amd64 os) /\ (forall os, os <> OS_IOS -> mix_arch arm os) /\
   (forall os, mix_arch arm64 os) /\ (forall os, mix_arch mips32 os) /\ (forall os, mix_arch mips64 os).
